@@ -1,7 +1,13 @@
 (* Properties_C13.v -- C13: the hash array is an insertion-ordered map under every
-   operation sequence.  Statements only; proofs are in HtabProofs*.v. *)
-From Coq Require Import List NArith Arith Bool.
-From Qv Require Import HtabModel HtabProofsHash.
+   operation sequence.  Statements only; proofs are in HtabProofs*.v.
+
+   Model: HtabModel.v (HashTable.hpp / HArray.hpp / HList.hpp, StringUtils::Hash).
+   `live s` = the live entries in iteration order; `sp_*` = association-list operations.
+   All theorems hold for arbitrary keys (empty, embedded NULs) and ANY collision
+   pattern: the proofs are a Section over an arbitrary hash H with H k <> 0 and never
+   use injectivity of H; here they are instantiated with the modelled hash. *)
+From Coq Require Import List NArith Arith Bool Permutation Sorting.Sorted.
+From Qv Require Import HtabModel HtabProofsHash HtabProofsInv HtabProofsOps HtabProofsHistory HtabProofsInst.
 Import ListNotations.
 
 (* The modelled StringUtils::Hash has bit 31 set and fits 32 bits, for every key. *)
@@ -13,3 +19,146 @@ Print Assumptions c13_hash_top_bit.
 Theorem c13_hash_nonzero : forall k : list N, c13_hash k <> 0%N.
 Proof. exact c13_hash_nonzero_l. Qed.
 Print Assumptions c13_hash_nonzero.
+
+(* The invariant (HtabProofsInv.Inv): capacity 0 or a power of two, |heads| = capacity,
+   |items| <= capacity, live items store the hash of their key and have pairwise distinct
+   keys, and for every bucket there is a duplicate-free chain from its head that contains
+   only items of that bucket and every live item of that bucket.  It holds initially. *)
+Theorem c13_inv_init : CInv empty_ht.
+Proof. exact c13_inv_init_l. Qed.
+Print Assumptions c13_inv_init.
+
+(* ALL operation sequences (all 17 operation kinds, incl. Sort and positional operations
+   in states with removed slots): no chain walk ever runs out of fuel and the invariant
+   holds afterwards. *)
+Theorem c13_history_inv : forall ops : list cop,
+  exists s outs, c13_run ops empty_ht = Some (s, outs) /\ CInv s.
+Proof. exact c13_history_inv_l. Qed.
+Print Assumptions c13_history_inv.
+
+(* Refinement, lifted to all operation sequences by induction over the operation list
+   (all 17 operation kinds: Insert, Get/operator[], HList::Insert, Remove, RemoveIndex,
+   RemoveIndex(GetKeyIndex k), Rename, Resize, Expect, Compress, Clear, Reset, Reserve, Sort,
+   copy, move, merge): whenever the association-list specification of a history is
+   defined -- it is undefined only for RemoveIndex / a shrinking Resize applied in a state
+   that may hold removed slots, where positions depend on the growth policy -- the model
+   produces the same outputs, its live entries IN ITERATION ORDER are the specification's
+   list, and a `clean` specification state has no removed slot. *)
+Theorem c13_history : forall (ops : list cop) l c outs,
+  c13_sp_run ops ([], true) = Some ((l, c), outs) ->
+  exists s, c13_run ops empty_ht = Some (s, outs) /\ CInv s /\ live s = l /\ (c = true -> c13_no_dead s).
+Proof. exact c13_history_l. Qed.
+Print Assumptions c13_history.
+
+(* In the property's words, end to end: after ANY operation sequence whose specification is
+   defined, a key is found exactly when the association list has it (stored and not removed
+   since), lookup returns the list's value (the last one stored), the entries in iteration
+   order are the list (first-insertion order, key order after a sort: see the c13_spec theorems), the index
+   reported for a key names the slot holding that key, and in states without removed
+   slots that index is the key's position in iteration order. *)
+Theorem c13_history_observe : forall ops l c outs (k : key),
+  c13_sp_run ops ([], true) = Some ((l, c), outs) ->
+  exists s r, c13_run ops empty_ht = Some (s, outs) /\ live s = l /\
+    c13_lookup k s = Some r /\ c13_get_key_index k s = Some r /\
+    match r with
+    | Some i => exists v, c13_get_slot i s = Some (k, v) /\ sp_get key_eqb l k = Some v /\
+                          (c = true -> sp_index key_eqb l k = Some i)
+    | None => sp_get key_eqb l k = None
+    end.
+Proof. exact c13_history_observe_l. Qed.
+Print Assumptions c13_history_observe.
+
+(* One operation from ANY state satisfying the invariant (not only reachable ones):
+   c13_linked s (l, clean) := live s = l /\ (clean = true -> no removed slot in s). *)
+Theorem c13_step_refines : forall (o : cop) s st st' ou,
+  CInv s -> c13_linked s st -> c13_sp_step o st = Some (st', ou) ->
+  exists s', c13_step o s = Some (s', ou) /\ CInv s' /\ c13_linked s' st'.
+Proof. exact c13_step_refines_l. Qed.
+Print Assumptions c13_step_refines.
+
+(* every operation terminates without a fuel error and keeps the invariant, in every state *)
+Theorem c13_step_total : forall (o : cop) s, CInv s -> exists s' ou, c13_step o s = Some (s', ou) /\ CInv s'.
+Proof. exact c13_step_total_l. Qed.
+Print Assumptions c13_step_total.
+
+(* fuel sufficiency for find *)
+Theorem c13_find_fuel : forall s k, CInv s -> 0 < cap s -> c13_find_key s k <> None.
+Proof. exact c13_find_fuel_l. Qed.
+Print Assumptions c13_find_fuel.
+
+(* Sort (the transliterated Memory::Sort quicksort + rehash) yields the entries in the
+   order of the specification's sort ... *)
+Theorem c13_sort_refines : forall asc s, CInv s ->
+  exists s', c13_sort asc s = Some s' /\ CInv s' /\ live s' = @sp_sort key N key_ltb asc (live s).
+Proof. exact c13_sort_refines_l. Qed.
+Print Assumptions c13_sort_refines.
+
+(* ... which is a permutation without inversions w.r.t. the key comparison (key order) *)
+Theorem c13_spec_sort : forall asc (l : list (key * N)),
+  Permutation l (@sp_sort key N key_ltb asc l) /\
+  StronglySorted (fun x y => @pair_before key N key_ltb asc y x = false) (@sp_sort key N key_ltb asc l).
+Proof. exact c13_spec_sort_l. Qed.
+Print Assumptions c13_spec_sort.
+
+(* Has / GetValue / GetKeyIndex / GetKey in ANY state satisfying the invariant: a key is
+   found exactly when the association list has it, with the list's value; the index
+   returned for a key names the slot holding that key (key -> index -> key). *)
+Theorem c13_lookup : forall k s, CInv s ->
+  exists r, c13_lookup k s = Some r /\ c13_get_key_index k s = Some r /\
+    match r with
+    | Some i => exists v, c13_get_slot i s = Some (k, v) /\ sp_get key_eqb (live s) k = Some v
+    | None => sp_get key_eqb (live s) k = None
+    end.
+Proof. exact c13_lookup_l. Qed.
+Print Assumptions c13_lookup.
+
+(* index -> key -> index *)
+Theorem c13_index_key_index : forall i s k v, CInv s ->
+  c13_get_slot i s = Some (k, v) -> c13_get_key_index k s = Some (Some i).
+Proof. exact c13_index_key_index_l. Qed.
+Print Assumptions c13_index_key_index.
+
+(* in a state without removed slots the slot number of a key is its position in iteration order *)
+Theorem c13_index_clean : forall k s i, CInv s -> c13_no_dead s ->
+  c13_get_key_index k s = Some (Some i) -> sp_index key_eqb (live s) k = Some i.
+Proof. exact c13_index_clean_l. Qed.
+Print Assumptions c13_index_clean.
+
+(* Resize(n) in any state: the result has no removed slot and holds a prefix of the entries *)
+Theorem c13_resize_general : forall n s, CInv s ->
+  exists s', c13_resize n s = Some s' /\ CInv s' /\ c13_no_dead s' /\ exists m, m <= n /\ live s' = firstn m (live s).
+Proof. exact c13_resize_general_l. Qed.
+Print Assumptions c13_resize_general.
+
+(* The specification says what the property says. *)
+(* lookup returns the last value stored under the key; other keys are unaffected *)
+Theorem c13_spec_get_put_same : forall (l : list (key * N)) k v, sp_get key_eqb (sp_put key_eqb l k v) k = Some v.
+Proof. exact (sp_get_put_same key_eqb key_eqb_spec). Qed.
+Print Assumptions c13_spec_get_put_same.
+Theorem c13_spec_get_put_other : forall (l : list (key * N)) k v k', k' <> k ->
+  sp_get key_eqb (sp_put key_eqb l k v) k' = sp_get key_eqb l k'.
+Proof. exact (sp_get_put_other key_eqb key_eqb_spec). Qed.
+Print Assumptions c13_spec_get_put_other.
+(* a removed key is not found (until stored again); other keys are unaffected *)
+Theorem c13_spec_get_remove_same : forall (l : list (key * N)) k, NoDup (map fst l) ->
+  sp_get key_eqb (sp_remove key_eqb l k) k = None.
+Proof. exact (sp_get_remove_same key_eqb key_eqb_spec). Qed.
+Print Assumptions c13_spec_get_remove_same.
+Theorem c13_spec_get_remove_other : forall (l : list (key * N)) k k', k' <> k ->
+  sp_get key_eqb (sp_remove key_eqb l k) k' = sp_get key_eqb l k'.
+Proof. exact (sp_get_remove_other key_eqb key_eqb_spec). Qed.
+Print Assumptions c13_spec_get_remove_other.
+(* iteration order is first-insertion order *)
+Theorem c13_spec_keys_put : forall (l : list (key * N)) k v,
+  map fst (sp_put key_eqb l k v) = if sp_has key_eqb l k then map fst l else map fst l ++ [k].
+Proof. exact (sp_keys_put key_eqb). Qed.
+Print Assumptions c13_spec_keys_put.
+Theorem c13_spec_remove_order : forall (l : list (key * N)) k v, sp_get key_eqb l k = Some v ->
+  exists a b, l = a ++ (k, v) :: b /\ sp_remove key_eqb l k = a ++ b /\ sp_get key_eqb a k = None.
+Proof. exact (sp_remove_order key_eqb key_eqb_spec). Qed.
+Print Assumptions c13_spec_remove_order.
+(* rename keeps position and value *)
+Theorem c13_spec_rekey_order : forall (l : list (key * N)) from to v, sp_get key_eqb l from = Some v ->
+  exists a b, l = a ++ (from, v) :: b /\ sp_rekey key_eqb l from to = a ++ (to, v) :: b.
+Proof. exact (sp_rekey_order key_eqb key_eqb_spec). Qed.
+Print Assumptions c13_spec_rekey_order.
